@@ -625,6 +625,7 @@ func (s *Session) execSelect(x *ast.SelectStmt, args []interface{}, now time.Tim
 		}
 		for _, r := range rows {
 			je.Matched = append(je.Matched, t.pkKey(r))
+			je.MatchedRows = append(je.MatchedRows, append([]interface{}{}, r...))
 		}
 	}
 	// projection
